@@ -61,8 +61,11 @@ def run_one(name, with_tests, tier):
         demo = os.path.join(tmp, "demo.py")
         shutil.copy(os.path.join(d, "demo.py"), demo)
         env = dict(os.environ, PYTHONWARNINGS="ignore")
-        r1 = sh(["/venv/bin/python", demo], env=dict(env, PYTHONPATH=dst), cwd=tmp, timeout=900)
-        r0 = sh(["/venv/bin/python", demo], env=dict(env, PYTHONPATH=REPO), cwd=tmp, timeout=900)
+        # (demonstrations are written to be run from the root of the tree they test)
+        r1 = sh(["/venv/bin/python", demo], env=dict(env, PYTHONPATH=dst), cwd=dst, timeout=900)
+        clean = os.path.join(tmp, "clean")  # an unpatched copy, so that a demo writing into its cwd cannot touch /repo
+        shutil.copytree(REPO, clean, ignore=shutil.ignore_patterns(".git", "__pycache__", "*.pyc", "docs", "benchmarks", "presentations", "MUTANTS"))
+        r0 = sh(["/venv/bin/python", demo], env=dict(env, PYTHONPATH=clean), cwd=clean, timeout=900)
         out["demo_on_mutant_exit"] = r1.returncode
         out["demo_on_repo_exit"] = r0.returncode
         out["demo_confirms"] = r1.returncode != 0 and r0.returncode == 0
